@@ -423,9 +423,11 @@ impl LockFreeMemoryPool {
             // Prefetch metadata for future allocations
             if i + PREFETCH_DISTANCE < sizes.len() && self.config.enable_simd_optimization {
                 let future_size = sizes[i + PREFETCH_DISTANCE];
-                let aligned_future_size = self.align_size(future_size);
 
-                if aligned_future_size <= FAST_BIN_THRESHOLD {
+                // Only fast-bin sizes have a bin head to prefetch (larger ones are not rounded
+                // here: rounding a size near usize::MAX would overflow)
+                if future_size <= FAST_BIN_THRESHOLD {
+                    let aligned_future_size = self.align_size(future_size);
                     if let Ok(bin_idx) = self.size_to_bin_index(aligned_future_size) {
                         #[cfg(target_arch = "x86_64")]
                         {
